@@ -1,5 +1,6 @@
 import Driver.SeqDrv
 import Driver.SmallDrv
+import Driver.SortDrv
 open Lean Drv
 
 def handle (line : String) : String :=
@@ -10,6 +11,7 @@ def handle (line : String) : String :=
     | "seq" => seqLine j
     | "stack" => stackLine j
     | "iter" => iterLine j
+    | "sort" => sortLine j
     | k => verdict false true "bad-kind" k
 
 partial def loop (h : IO.FS.Stream) (out : IO.FS.Stream) : IO Unit := do
